@@ -41,6 +41,7 @@ EXTRA_LAYERS = {
     "PaddyTop": (0.32, 0.50, 0.54, 15.0, 100.0),
     "PaddyPan": (0.39, 0.54, 0.55, 2.0, 100.0),
     "TightClay": (0.39, 0.54, 0.55, 0.5, 50.0),
+    "Drainy": (0.05, 0.10, 0.50, 30.0, 100.0),      # drains faster than its conductivity lets water out: the Ksat limit of drainage binds
 }
 
 
